@@ -190,6 +190,14 @@ impl MetricSink for GatedSink {
                 std::thread::sleep(Duration::from_micros(us));
             }
         }
+        if out == Out::Panic {
+            // identify this thread beyond its tid (tids are reused within a second on a busy machine): whoever sees
+            // the EXIT event and calls await_thread_gone() must find this thread's entry, not an earlier thread's
+            match procmon::task_starttime(tid) {
+                Some(st) => PANICKING.lock().unwrap_or_else(|e| e.into_inner()).insert(tid, st),
+                None => PANICKING.lock().unwrap_or_else(|e| e.into_inner()).remove(&tid),
+            };
+        }
         {
             let mut g = self.sh.st.lock().unwrap_or_else(|e| e.into_inner());
             g.log.push(Ev::Exit { metric: metric.to_string(), out: out.clone(), tid });
@@ -340,7 +348,8 @@ pub fn await_log(sh: &Shared, pred: impl Fn(&St) -> bool) -> Result<(), Stuck> {
 pub fn await_no_library_thread() -> Result<(), Stuck> {
     let t0 = Instant::now();
     loop {
-        if live_library_tids().is_empty() {
+        // (three listings in a row: a single one can miss a thread that is being replaced)
+        if live_library_tids().is_empty() && live_library_tids().is_empty() && live_library_tids().is_empty() {
             return Ok(());
         }
         if t0.elapsed() > Duration::from_millis(300) {
@@ -357,9 +366,18 @@ pub fn await_no_library_thread() -> Result<(), Stuck> {
     }
 }
 
-/// Wait until the given thread no longer exists.
+/// (tid -> start time) of the threads on which the wrapped sink panicked last.
+static PANICKING: Mutex<std::collections::BTreeMap<u32, u64>> = Mutex::new(std::collections::BTreeMap::new());
+
+/// Wait until the given thread (the one that panicked inside the wrapped sink with this tid) no longer exists. A later
+/// thread that got the same tid is somebody else: threads are identified by (tid, start time).
 pub fn await_thread_gone(tid: u32) -> Result<(), Stuck> {
-    let gone = || !std::path::Path::new(&format!("/proc/self/task/{}", tid)).exists();
+    let st0 = PANICKING.lock().unwrap_or_else(|e| e.into_inner()).get(&tid).copied();
+    let gone = || match (st0, procmon::task_starttime(tid)) {
+        (_, None) => true,
+        (Some(a), Some(b)) => a != b,
+        (None, Some(_)) => false,
+    };
     let t0 = Instant::now();
     loop {
         if gone() {
@@ -391,6 +409,14 @@ fn watch_excluding(mut done: impl FnMut() -> bool, zombies: &BTreeSet<u32>, min_
         }
         let tids: Vec<u32> = procmon::library_tids().into_iter().filter(|t| !zombies.contains(t)).collect();
         if tids.is_empty() {
+            if done() {
+                return None;
+            }
+            // one listing of /proc/self/task is not an atomic snapshot: a worker that hands over to its successor
+            // while the directory is being read can be missed. The verdict needs the fact to be stable.
+            if !procmon::confirm_no_library_thread(zombies) {
+                continue;
+            }
             if done() {
                 return None;
             }
